@@ -172,7 +172,7 @@ struct World {
 
 // points of the grid family: variant 0 base, 1 equal-but-distinct, 2.. foreign
 std::vector<Val> grid_points(const Plan &p, int variant, uint32_t j);
-constexpr int N_GRID_VARIANTS = 8;
+constexpr int N_GRID_VARIANTS = 9;
 
 // A reference obtained from a public accessor of a live object. It must stay
 // valid and unchanged for as long as that object is neither assigned to,
@@ -320,7 +320,7 @@ enum Probe : int {
   PR_XGRID_REFUSED, PR_EQGRID_DISTINCT, PR_IDX_IN, PR_IDX_EDGE, PR_IDX_HUGE,
   PR_IDX_WRAP, PR_LAST_OWNER_TASK, PR_MSG_SENT, PR_MSG_RECV, PR_C03_COMPARED,
   PR_SWEEP_POINTS, PR_FACTOR_INSIDE, PR_TWIN_COMPARED, PR_PIN_TAKEN, PR_PIN_CHECKED,
-  PR_NKINDS
+  PR_ALIAS_SCALAR, PR_NKINDS
 };
 const char *probe_name(int p);
 void probe(int p, uint64_t n = 1);
